@@ -56,6 +56,28 @@ def specMultiple (hits : List FHit) : List FHit :=
 
 def overlaps20 (a b : FHit) : Bool := decide (20 < overlapSize a b)
 
+/-- the two hits compete: different objects sharing more than 20 residues -/
+def competes (a b : FHit) : Bool := a.uid != b.uid && overlaps20 a b
+
+/-- connected through a chain of competing hits of the gene: one *overlapping group* -/
+inductive Linked (hits : List FHit) : FHit → FHit → Prop
+  | refl (x : FHit) : Linked hits x x
+  | step {a b c : FHit} : a ∈ hits → b ∈ hits → competes a b = true → Linked hits b c → Linked hits a c
+
+/-- `o` is preferred to `h`: the higher bitscore, and of two equal bitscores the one that comes
+    first in the gene's hit list (the tie rule of `filter_results`) -/
+def prefers (hits : List FHit) (o h : FHit) : Bool :=
+  decide (h.sc < o.sc) || (o.sc == h.sc && [o, h].isSublist hits)
+
+/-- executable twin of `Linked` for the driver (closure by `hits.length` rounds of neighbour
+    expansion).  It is not proved equal to the `Prop`; the theorems speak about `Linked`, the
+    correspondence runs this -/
+def expandB (hits front : List FHit) : List FHit :=
+  hits.filter fun h => front.any fun f => f == h || competes f h
+def reachB (hits : List FHit) (a : FHit) : List FHit :=
+  (List.range hits.length).foldl (fun front _ => expandB hits front) [a]
+def linkedB (hits : List FHit) (a b : FHit) : Bool := a == b || (reachB hits a).contains b
+
 structure EquivVerdict where
   sublist : Bool      -- survivors are input hits in their input order, none invented
   separated : Bool    -- if ≥ 2 profiles of some equivalence group survive, no two survivors overlap by > 20
@@ -71,6 +93,15 @@ def isSublistB {α} [DecidableEq α] : List α → List α → Bool
 /-- at least two different profiles of the equivalence group hit the gene -/
 def qualifies (eqGroup : List Int) (hits : List FHit) : Bool :=
   decide (2 ≤ ((ASV.Refine.firstOcc eqGroup).filter fun p => hits.any fun h => h.prof == p).length)
+
+/-- one competition: if at least two profiles of the equivalence group hit the gene, every
+    overlapping group keeps exactly its preferred member; hits outside any group stay -/
+def specPassB (hits : List FHit) (eqGroup : List Int) : List FHit :=
+  if qualifies eqGroup hits then
+    hits.filter fun h => hits.all fun o => !(linkedB hits h o && prefers hits o h)
+  else hits
+
+def specFilterB (eqGroups : List (List Int)) (hits : List FHit) : List FHit := eqGroups.foldl specPassB hits
 
 def equivSpec (eqGroups : List (List Int)) (input out : List FHit) : EquivVerdict where
   sublist := isSublistB out input
